@@ -61,7 +61,8 @@ type PkgConfig struct {
 	Ffi string
 }
 
-func getFfi(pkg *packages.Package) string {
+// ffisUsed returns the set of FFIs reachable from pkg
+func ffisUsed(pkg *packages.Package) map[string]struct{} {
 	seenFfis := make(map[string]struct{})
 	packages.Visit([]*packages.Package{pkg},
 		func(pkg *packages.Package) bool {
@@ -78,6 +79,11 @@ func getFfi(pkg *packages.Package) string {
 			}
 		},
 	)
+	return seenFfis
+}
+
+func getFfi(pkg *packages.Package) string {
+	seenFfis := ffisUsed(pkg)
 
 	if len(seenFfis) > 1 {
 		panic(fmt.Sprintf("multiple ffis used %v", seenFfis))
